@@ -469,19 +469,19 @@ def gen_all_shapes(rng, nmax):
 def gen_inputs(tier, rng):
     big = tier == "thorough"
     yield from gen_all_shapes(rng, 9 if big else 6)
-    for i in range(300 if big else 33):
+    for i in range(300 if big else 30):
         yield from gen_geometry_cases(rng, exact=(i % 3 != 2))
     for i in range(150 if big else 21):
         yield from gen_geometry1_cases(rng, exact=(i % 3 != 2))
-    for i in range(150 if big else 18):
+    for i in range(150 if big else 15):
         yield from gen_session(rng, exact=(i % 3 != 2))
     for i in range(60 if big else 9):
         yield from gen_session1(rng, exact=(i % 3 != 2))
-    for i in range(120 if big else 15):
+    for i in range(120 if big else 12):
         yield from gen_derived(rng, exact=(i % 3 != 2))
     for i in range(40 if big else 6):
         yield from gen_derived1(rng, exact=(i % 3 != 2))
-    for i in range(500 if big else 60):
+    for i in range(500 if big else 45):
         yield from gen_mask_cases(rng, exact=(i % 3 != 2), kinds=["circ", "ann", "anti", "ell", "ellann"])
 
 # ----------------------------------------------------------------------------- running one case
@@ -612,19 +612,19 @@ class G2:
             R = geo.grid_pixels_2d_from(grid_scaled_2d=G)
             outs = [np.array(R), gu.grid_pixels_2d_slim_from(grid_scaled_2d_slim=arr_in, **self.kw)]
             tol = cq(self.tol_p(*[p[0] / self.sy for p in g], *[p[1] / self.sx for p in g]))
-            terms = [f"(KGridPixels {self.hdr} {gq} {tol} {q2list(fr2(o))})" for o in outs]
-            terms.append(f"(KGeoGrid 0 {self.hdr} {Gobj} {tol} {cgobj(R)})")
+            terms = [f"(KGeoGrid 0 {self.hdr} {Gobj} {tol} {cgobj(R)})"]
+            terms += [f"(KGridPixels {self.hdr} {gq} {tol} {q2list(fr2(o))})" for o in outs[1:] if not same_arr(o, outs[0])]
         elif kind == "gridscaled":
             R = geo.grid_scaled_2d_from(grid_pixels_2d=G)
             outs = [np.array(R), gu.grid_scaled_2d_slim_from(grid_pixels_2d_slim=arr_in, **self.kw)]
             tol = cq(self.tol_s(*[p[0] * self.sy for p in g], *[p[1] * self.sx for p in g]))
-            terms = [f"(KGridScaled {self.hdr} {gq} {tol} {q2list(fr2(o))})" for o in outs]
-            terms.append(f"(KGeoGrid 2 {self.hdr} {Gobj} {tol} {cgobj(R)})")
+            terms = [f"(KGeoGrid 2 {self.hdr} {Gobj} {tol} {cgobj(R)})"]
+            terms += [f"(KGridScaled {self.hdr} {gq} {tol} {q2list(fr2(o))})" for o in outs[1:] if not same_arr(o, outs[0])]
         elif kind == "gridcentres":
             R = geo.grid_pixel_centres_2d_from(grid_scaled_2d=G)
             outs = [np.array(R), gu.grid_pixel_centres_2d_slim_from(grid_scaled_2d_slim=arr_in, **self.kw)]
-            terms = [f"(KGridCentres {self.hdr} {gq} {q2list(fr2(o))})" for o in outs]
-            terms.append(f"(KGeoGrid 1 {self.hdr} {Gobj} {cq(0)} {cgobj(R)})")
+            terms = [f"(KGeoGrid 1 {self.hdr} {Gobj} {cq(0)} {cgobj(R)})"]
+            terms += [f"(KGridCentres {self.hdr} {gq} {q2list(fr2(o))})" for o in outs[1:] if not same_arr(o.astype(float), outs[0].astype(float))]
             # the native (3-D) routine on the same points, laid out in the container's own native shape (all-false containers only)
             if not np.array(G.mask).any():
                 h, w = G.mask.shape_native
@@ -636,8 +636,8 @@ class G2:
         else:
             R = geo.grid_pixel_indexes_2d_from(grid_scaled_2d=G)
             outs = [np.array(R), gu.grid_pixel_indexes_2d_slim_from(grid_scaled_2d_slim=arr_in, **self.kw)]
-            terms = [f"(KGridIndexes {self.hdr} {gq} {qlist([frac(v) for v in o])})" for o in outs]
-            terms.append(f"(KGeoIndexes {self.hdr} {Gobj} ({qlist([frac(v) for v in np.array(R)])}, {cmobj(R.mask)}))")
+            terms = [f"(KGeoIndexes {self.hdr} {Gobj} ({qlist([frac(v) for v in np.array(R)])}, {cmobj(R.mask)}))"]
+            terms += [f"(KGridIndexes {self.hdr} {gq} {qlist([frac(v) for v in o])})" for o in outs[1:] if not same_arr(o.astype(float), outs[0].astype(float))]
         # the caller's objects are left as they were: the Grid2D handed to the method, the array handed to the util function
         ok = arr_in is not None and same_arr(np.array(G), arr) and same_arr(arr_in, arr)
         return terms, str(outs[0].tolist()), ok
@@ -651,9 +651,11 @@ class G2:
                 g2u.grid_2d_slim_via_mask_from(mask_2d=marr_in, pixel_scales=self.ps, **self.ko)]
         tol = cq(self.tol_s())
         s, o = q2((self.sy, self.sx)), q2((self.oy, self.ox))
-        terms = [f"(KGridMask {cmask(m)} {s} {o} {tol} {q2list(fr2(ou))})" for ou in outs]
-        terms.append(f"(KFromMaskC {self.mobj()} {tol} {cgobj(objs[0])})")
-        terms.append(f"(KDeriveUnmaskedC {self.mobj()} {tol} {cgobj(objs[1])})")
+        # identical outputs are judged once: the OBJECT returned by Grid2D.from_mask always; derive_grid.unmasked and the util routine only
+        # where what they returned differs from it
+        terms = [f"(KFromMaskC {self.mobj()} {tol} {cgobj(objs[0])})"]
+        if cgobj(objs[1]) != cgobj(objs[0]): terms.append(f"(KDeriveUnmaskedC {self.mobj()} {tol} {cgobj(objs[1])})")
+        terms += [f"(KGridMask {cmask(m)} {s} {o} {tol} {q2list(fr2(ou))})" for ou in outs[2:] if not same_arr(ou, outs[0])]
         ok = same_arr(marr_in, marr) and same_arr(np.array(self.mask), marr)
         if siblings:
             # the all-false grids of the same geometry: Grid2D.uniform, derive_grid.all_false, the native form of from_mask
@@ -798,6 +800,17 @@ def run_case(inp):
                 dg = G2(aa, (len(content), len(content[0])), (g2.sy, g2.sx), (g2.oy, g2.ox), exact, m=content)
                 dg.mask = d; dg.geo = d.geometry
                 acc.add(*dg.extent(True, fresh_array=False)); acc.add(*dg.gridmask(siblings=False)); acc.add(*dg.central(False))
+            # a COPY with a history: read the original (anything remembered on the object is now there), copy it, edit the copy in place,
+            # read both again -- the copy reports its own content, the original is untouched
+            import copy
+            acc.add(*g2.gridmask(siblings=False))
+            for cp in (g2.mask.copy(), copy.deepcopy(g2.mask)):
+                cg = G2(aa, g2.sh, (g2.sy, g2.sx), (g2.oy, g2.ox), exact, m=g2.m)
+                cg.mask = cp; cg.geo = cp.geometry
+                i, j = (H * 7 + W) % H, (H + W * 5) % W
+                cg.edit((i, j), not g2.m[i][j])
+                acc.add(*cg.gridmask(siblings=False)); acc.add(*cg.extent(False, fresh_array=False))
+            acc.add(*g2.gridmask(siblings=False))
         else:
             oth = inp["other"]
             og = G2(aa, oth["shape"], oth["s"], oth["o"], exact, m=oth["m"])
@@ -908,7 +921,8 @@ def run_case(inp):
         ok = bool(tuple(pub.origin) == org and tuple(pub.pixel_scales) == ps and tuple(pub.shape_native) == sh)
         pubm = np.array(pub).astype(bool)
         # the util routine's array, and the OBJECT the public constructor returned (content -- complemented when invert=True --, pixel scales, origin)
-        terms = [mk(np.array(outs[1]).astype(bool)), mkc(pub)]
+        utilm = np.array(outs[1]).astype(bool)
+        terms = [mkc(pub)] + ([] if same_arr(utilm, ~pubm if inv else pubm) else [mk(utilm)])      # the util array is judged separately only where it differs
         af = aa.Mask2D.all_false(shape_native=sh, pixel_scales=kwp["pixel_scales"], **korg, invert=inv)
         terms.append(f"(KAllFalseC {z2(sh)} {q2((sy, sx))} {q2((F(inp['origin'][0]), F(inp['origin'][1])))} {cbool(inv)} {cmobj(af)})")
         # the pixel-centre grid of the constructed mask is placed with the mask's origin
